@@ -17,6 +17,9 @@ var _ Processor = (*SimpleProcessor)(nil)
 type SimpleProcessor struct {
 	mu       sync.Mutex
 	exporter Exporter
+	// stopped is set, under mu, by Shutdown: an OnEmit that lost the race
+	// against it must not export any more.
+	stopped bool
 
 	noCmp [0]func() //nolint: unused  // This is indeed used.
 }
@@ -48,6 +51,9 @@ func (s *SimpleProcessor) OnEmit(ctx context.Context, r *Record) error {
 
 	s.mu.Lock()
 	defer s.mu.Unlock()
+	if s.stopped {
+		return nil
+	}
 
 	records := simpleProcRecordsPool.Get().(*[]Record)
 	(*records)[0] = *r
@@ -63,6 +69,12 @@ func (s *SimpleProcessor) Shutdown(ctx context.Context) error {
 	if s.exporter == nil {
 		return nil
 	}
+
+	// Wait for an export in progress and keep later ones out: nothing is
+	// exported once Shutdown has returned.
+	s.mu.Lock()
+	s.stopped = true
+	s.mu.Unlock()
 
 	return s.exporter.Shutdown(ctx)
 }
